@@ -143,7 +143,37 @@ def _anc(n):
         p = parent(p)
 
 
+def rule_canon_reduced(ctx: Ctx) -> None:
+    """canon.reduced: canonical_form is the *reduced* echelon form (that is what makes it unique, hence usable for equality): after
+    a pivot is chosen in a column, the pivot row is multiplied into every other row that has the pivot's Pauli in that column —
+    rows above the pivot and rows of the other block included.  The elimination loops therefore range over all rows
+    (`range(n_qubits)` with `row != pivot`), never over the candidate list the finder returned (rows at or below the pivot only)."""
+    repo = ctx.repo
+    m = repo.module(STABF)
+    fn = repo.anchor(STABF, "canonical_form")
+    ctx.touch(m, fn)
+    nq = {norm(a.targets[0]) for a in ast.walk(fn) if isinstance(a, ast.Assign) and len(a.targets) == 1 and norm(a.value).endswith(".n_qubits")}
+    full = {f"range({x})" for x in nq} | {"range(tableau.n_qubits)"}
+    elim = [l for l in ast.walk(fn) if isinstance(l, ast.For) and any(call_name(c) in ("tab_row_sum", "row_sum") for c in calls_in(l))
+            and not any(isinstance(x, ast.For) and x is not l and any(call_name(c) in ("tab_row_sum", "row_sum") for c in calls_in(x)) for x in ast.walk(l))]
+    if len(elim) < 2:
+        raise AnalysisError("canonical_form: the two elimination loops (X block, Z block) were not found")
+    for l in elim:
+        rs = [c for c in calls_in(l) if call_name(c) in ("tab_row_sum", "row_sum")][0]
+        guard_ne = any(isinstance(t, ast.Compare) and isinstance(t.ops[0], ast.NotEq) and norm(t.left) == norm(l.target) for i in ast.walk(l) if isinstance(i, ast.If)
+                       for t in ast.walk(i.test))
+        if norm(l.iter) in full and guard_ne:
+            ctx.ok("canon.reduced", m, l, what="pivot eliminated from every other row")
+        else:
+            ctx.fail("canon.reduced", m, l,
+                     f"canonical_form eliminates the pivot only from the rows `{short(l.iter, 40)}`: rows above the pivot (and rows of the other block) "
+                     f"keep their entry in the pivot column, so the result is an echelon form but not the reduced one — two generating sets of "
+                     f"the same state get different 'canonical' forms and Stabilizer.__eq__ answers False for equal states",
+                     func="canonical_form", construct="canonical_form: elimination does not range over all rows")
+
+
 def run(ctx: Ctx) -> None:
+    rule_canon_reduced(ctx)
     tableau.rule_fresh_storage(ctx)
     from .c11 import rule_inverse_blocks
     rule_inverse_blocks(ctx)
@@ -173,6 +203,7 @@ def _hoist(src: str) -> str:
 
 
 KNOCKOUTS = [
+    Knockout("canon-eliminate-below-only", STABF, sub_nth("            for row_m in range(n_qubits):\n                if tableau.z_matrix[row_m, j] == 1 and row_m != pivot[0]:", "            for row_m in range(pivot[0], n_qubits):\n                if tableau.z_matrix[row_m, j] == 1 and row_m != pivot[0]:", 0), "canon.reduced", "does not range over all rows"),
     Knockout("stab-phase-asarray", tableau.TABLEAU, sub_once("            self._phase = np.copy(phase).astype(int)", "            self._phase = np.asarray(phase, dtype=int)"), "own.fresh-storage", "aliases its argument"),
     Knockout("clifford-phase-iphase-shared", tableau.CTABLEAU, sub_once("        self._iphase = np.zeros(2 * self.n_qubits).astype(int)\n", "        self._iphase = self._phase\n"), "own.fresh-storage", "aliases"),
     Knockout("eq-drop-phase", TABLEAU, sub_once("            return np.all(self.phase == other.phase) and np.array_equal(\n                self.table.astype(int), other.table.astype(int)\n            )",
